@@ -187,7 +187,7 @@ fn replay_case(ctx: &mut Ctx, idx: usize, w: &World, w2: &World) {
 }
 
 /// closing messages from every stage with one field replaced by a value from another state / channel
-fn closing_case(ctx: &mut Ctx, idx: usize, w: &World) {
+fn closing_case(ctx: &mut Ctx, idx: usize, w: &World, w2: &World) {
     if !ctx.begin_case(idx, "closing-message-substitution") {
         return;
     }
@@ -237,6 +237,17 @@ fn closing_case(ctx: &mut Ctx, idx: usize, w: &World) {
             ctx.violation(&format!("the merchant's close check rejects the closing message of stage {}", stage), json!({"class": "honest-close-rejected", "stage": stage}));
             continue;
         }
+        // the unaltered message under another merchant's close check (on the same thread, after this merchant's check)
+        {
+            let sig: CloseStateSignature = wire::de(&m[..96]).unwrap();
+            let cs: CloseState = wire::de(&m[96..176]).unwrap();
+            let other_ok = matches!(w2.merchant.check_close_signature(sig, &cs), Verification::Verified);
+            ctx.evals += 1;
+            ctx.count(&format!("close-check:{}:other-merchant:{}", stage, other_ok));
+            if other_ok {
+                ctx.violation(&format!("another merchant's close check accepts the closing message ({}) of this merchant's channel", stage), json!({"class": "close-check-accepts-other-merchant", "stage": stage, "message": hex::encode(m)}));
+            }
+        }
         let mut alts: Vec<(&str, Vec<u8>)> = vec![];
         let base = m[96..176].to_vec();
         let mut x = base.clone(); x[..32].copy_from_slice(&other.cid.to_bytes()); alts.push(("channel-id-of-another-channel", x));
@@ -280,7 +291,7 @@ pub fn run(ctx: &mut Ctx) {
             idx += 1; establish_case(ctx, idx, &w, &w2);
             idx += 1; pay_case(ctx, idx, &w, &w2, &w_rp, &w_rev);
             idx += 1; replay_case(ctx, idx, &w, &w2);
-            idx += 1; closing_case(ctx, idx, &w);
+            idx += 1; if (idx / 4) % 2 == 0 { closing_case(ctx, idx, &w, &w2); } else { closing_case(ctx, idx, &w2, &w); }
         }
     }
 }
